@@ -85,10 +85,24 @@ class watchdog:
         return False
 
 
+VIA = ["direct"]
+NSEQ = [0]
+
+
 async def deliver(eh, nt, nts, sid, body, pad, style, tags) -> str:
+    """one NOTIFY reaches the library: directly at `handle_notify`, or — what the publisher really does — as a request to
+    `AiohttpNotifyServer._handle_request` (headers as aiohttp presents them); status and effect must be the same"""
+    NSEQ[0] += 1
+    server = VIA[0] == "server" or (VIA[0] == "mix" and NSEQ[0] % 2 == 0)
     try:
         with watchdog():
-            st = await eh.handle_notify(c09env.notify_headers(nt, nts, sid, style), c09env.render_body(body, pad, style))
+            hdrs, text = c09env.notify_headers(nt, nts, sid, style), c09env.render_body(body, pad, style)
+            if server:
+                st = await c09env.notify_via_server(eh, hdrs, text)
+                tags.add("via:notify-server")
+            else:
+                st = await eh.handle_notify(hdrs, text)
+                tags.add("via:direct")
         return f"out notified status {int(st)}"
     except Exception as e:  # noqa: BLE001
         tags.add("exc:" + c09env.exc_tok(e))
@@ -106,7 +120,10 @@ async def _run(recipe, lines, tags):
     lines.extend(c09env.fdecl_lines(svc_vars, texts_of(recipe)))
     lines.extend(c09env.decl_lines(svc_vars))
     try:
-        rq, eh, svcs = await c09env.make_env(svc_vars)
+        NSEQ[0] = 0
+        via = recipe.get("via", "direct")     # direct | server | mix: how NOTIFYs reach the handler
+        rq, eh, svcs = await c09env.make_env(svc_vars, aiohttp_server=via != "direct")
+        VIA[0] = via
     except Exception as e:  # noqa: BLE001
         lines.append("factoryfail " + c09env.exc_tok(e))
         tags.add("factoryfail")
@@ -482,10 +499,12 @@ def run_many(recipes: List[dict], prefix: str) -> List[Case]:
 
 
 def generate(ctx: Ctx) -> List[Case]:
-    cases = [run_recipe(ctx, rec, f"corpus{i}") for i, rec in enumerate(CORPUS)]
+    cases = [run_recipe(ctx, rec, f"corpus{i}") for i, rec in enumerate(CORPUS + [dict(r, via="server") for r in CORPUS])]
     recipes = exhaustive(ctx) + repeated(ctx)
     n_random = 4000 if ctx.thorough else 300
     recipes += [rand_recipe(ctx.rng) for _ in range(n_random)]
+    # a third of the schedules deliver every NOTIFY through AiohttpNotifyServer._handle_request, a third every other one
+    recipes = [dict(r, via=["direct", "server", "mix"][i % 3]) for i, r in enumerate(recipes)]
     cases += run_many(recipes, "g")
     return cases
 
